@@ -194,6 +194,9 @@ func Parse(b []byte) (message util.Message, err error) {
 	default:
 		err = errors.New("An unknown v1.0 packet type was received. Parse function will discard data.")
 	}
+	if message == nil && err == nil {
+		err = errors.New("A message type this library does not decode was received. Parse function will discard data.")
+	}
 	return
 }
 
